@@ -349,6 +349,13 @@ def extentQueue (q : List α) : M (α × α) := do
     let mn := if v < mm.1 then v else mm.1
     (mn, mx)) (f, f))
 
+/-- the tail of `update`: push, widen max / min, remember the newest value -/
+def hlnFinish (s : HlnState α) (v : α) : HlnState α :=
+  let s := { s with q := s.q ++ [v] }
+  let s := if s.max < v then { s with max := v } else s
+  let s := if v < s.min then { s with min := v } else s
+  { s with last := v }
+
 def hlnCore (N : Nat) : Core α where
   σ := HlnState α
   init := { q := [], min := nat 0, max := nat 0, last := nat 0, init := true }
@@ -363,10 +370,7 @@ def hlnCore (N : Nat) : Core α where
             let (mn, mx) ← extentQueue rest
             pure { s with min := mn, max := mx }
         else pure s) else pure s
-    let s := { s with q := s.q ++ [v] }
-    let s := if s.max < v then { s with max := v } else s
-    let s := if v < s.min then { s with min := v } else s
-    pure { s with last := v }
+    pure (hlnFinish s v)
   out s :=
     if s.last == s.min && s.last == s.max then pure (some (nat 0))
     else do
